@@ -225,3 +225,39 @@ func VerifExpireStartupDelay(s *Server, ip netip.Addr) bool {
 	p.startupDelayTimer.Reset(0)
 	return true
 }
+
+// VerifErrorHistory replays a history of FSM errors through the real
+// peer.handleError of a peer without FSMs. kinds[k] is "damp" (a sent
+// NOTIFICATION other than Cease), "cease" (a received Cease) or anything else
+// (a transport error); gaps[k] is the time since the previous event. Every
+// hold-down is taken to have ended before the next event. The result holds,
+// per event, the startup delay if the event started a hold-down and 0
+// otherwise.
+func VerifErrorHistory(kinds []string, gaps []time.Duration) []time.Duration {
+	p := newPeer(PeerConfig{}, 0, nil, defaultPeerOptions())
+	out := make([]time.Duration, 0, len(kinds))
+	for k, kind := range kinds {
+		if p.lastProtoError != nil && k < len(gaps) {
+			t := p.lastProtoError.Add(-gaps[k])
+			p.lastProtoError = &t
+		}
+		var err error
+		switch kind {
+		case "damp":
+			err = newNotificationError(newNotification(NOTIF_CODE_UPDATE_MESSAGE_ERR, 1, nil), true)
+		case "cease":
+			err = newNotificationError(newNotification(NOTIF_CODE_CEASE, 2, nil), false)
+		default:
+			err = fmt.Errorf("reader error: %w", errors.New("io"))
+		}
+		p.inHoldDown = false
+		p.handleError(in, err)
+		if p.inHoldDown {
+			out = append(out, p.startupDelay)
+		} else {
+			out = append(out, 0)
+		}
+	}
+	p.startupDelayTimer.Stop()
+	return out
+}
